@@ -286,7 +286,7 @@ func (l *lexer) parseMul() (Expr, error) {
 
 func (l *lexer) parseUnary() (Expr, error) {
 	t := l.peek()
-	if t.kind == "op" && (t.text == "!" || t.text == "-") {
+	if t.kind == "op" && (t.text == "!" || t.text == "-" || t.text == "*") {
 		l.next()
 		x, err := l.parseUnary()
 		if err != nil {
